@@ -283,6 +283,67 @@ def retry_sequence():
         sc.close()
 
 
+def mixed_senders(args):
+    """`n` ready connections of peers that all serve one application, their hop-by-hop generators starting at the SAME value (the start
+    is random, so equal starts are possible); the selection callback picks peer `k`.  Own request, then a watchdog round on every
+    connection, then another own request: on each connection every request on the wire (the application's and the node's own) has its
+    own non-zero hop-by-hop identifier.  One deterministic history per (n, k)."""
+    n, k = args
+    from .. import scenario
+    _set_points()
+    sk.set_line_points({})
+    cfg = {"node": {"ips": ["10.0.0.1"], "tcp_port": 3868, "idle_timeout": 3, "dwa_timeout": 50, "wakeup": 1},
+           "peers": [{"name": f"peer{i + 1}.example.org"} for i in range(n)],
+           "apps": [{"id": env.APP_ACCT, "acct": True, "peers": list(range(n))}]}
+    sc = scenario.Scenario(cfg, max_socks=n, app_timeout=1, rand_plan=[0x10, 0x20] + [0x5000] * n)
+    vs = []
+    try:
+        nw = sc.start()
+        for i in range(n):
+            sc.apply(("accept",))
+            sc.apply(("m", i, f"cer_p{i}"))
+        peers = list(nw.peers)
+        nw.node.peer_route_select_func = lambda node, app, message, usable: ([p for p in usable if p is peers[k]] or usable)[0]
+        from diameter.message.commands import AccountingRequest
+
+        def send(i):
+            m = AccountingRequest()
+            m.session_id = f"mixed;{i}"
+            m.origin_host = b"node.example.org"
+            m.origin_realm = b"example.org"
+            m.destination_realm = b"example.org"
+            m.accounting_record_type = 1
+            m.accounting_record_number = i
+            m.acct_application_id = env.APP_ACCT
+
+            def caller():
+                try:
+                    nw.apps[0].send_request(m, timeout=1)
+                except Exception:
+                    pass
+            sk.spawn(caller, "caller")
+            nw.run()
+        send(1)
+        nw.world.jump(4)
+        nw.run()
+        sc.sync()
+        for i in range(n):
+            sc.apply(("m", i, "dwa"))
+        send(2)
+        sc.apply(("tick", 2))
+        per = {s.idx: [(f.h.code, f.h.hbh) for f in s.out if f.h.is_request and f.h.code != 257] for s in sc.socks}
+        for c, reqs in per.items():
+            h = [x for _, x in reqs]
+            if len(set(h)) != len(h) or 0 in h:
+                vs.append(("node:own-requests-and-watchdogs-on-connections-with-equal-start-values:duplicate-or-zero-hop-by-hop-on-one-connection",
+                           f"{n} connections, selection picks peer {k}: requests on connection {c} (command, hop-by-hop): {reqs}"))
+        if sum(1 for reqs in per.values() for c, _ in reqs if c == 271) != 2:
+            vs.append(("node:own-requests-and-watchdogs-on-connections-with-equal-start-values:unexpected-course", f"{per}"))
+        return vs
+    finally:
+        sc.close()
+
+
 # ------------------------------------------------------------------ sequential sweep
 def sweep(rep: Report):
     hh = _hh()
@@ -423,6 +484,11 @@ def run(tier):
                     "branching_points": r["max_points"]}, 40)
     for key, detail in retry_sequence():
         rep.add(Violation(key, detail, {"kind": "retry"}))
+    mixed = [(n_, k_) for n_ in (2, 3) for k_ in range(n_)]
+    for args in mixed:
+        for key, detail in mixed_senders(args):
+            rep.add(Violation(key, detail, {"kind": "mixed", "args": list(args)}))
+    rep.cov["mixed_sender_histories"] = len(mixed)
     n = sweep(rep)
     rep.cov.update({"states": execs, "transitions": execs, "traces_validated_against_impl": execs,
                     "schedules": execs, "distinct_outcomes_total": outcomes, "max_branching_points": maxpts,
@@ -441,6 +507,8 @@ def replay(case):
         # re-derive n_enabled by replaying choice by choice
         obs, ch = _replay_choices(functools.partial(gen_execute, cfg), case["choices"])
         return [Violation(k, d) for k, d in gen_check(obs)]
+    if kind == "mixed":
+        return [Violation(k, d) for k, d in mixed_senders(tuple(case["args"]))]
     if kind == "node":
         cfg = tuple(case["cfg"])
         obs, ch = _replay_choices(functools.partial(node_execute, cfg), case["choices"])
